@@ -72,6 +72,8 @@ type Method struct {
 	method interface{}
 	// Parent module of this method
 	Module *Module
+	// Type this method belongs to if it is a method of a type
+	owner *Type
 }
 
 // Internal method types implemented within eval.go
@@ -235,6 +237,16 @@ func newBoundMethod(name string, fn interface{}) (Object, error) {
 // Call a method
 func (m *Method) M__call__(args Tuple, kwargs StringDict) (Object, error) {
 	self := Object(m.Module)
+	if m.Module == nil && m.owner != nil {
+		// A method of a type called through the type, eg str.upper('a')
+		if len(args) == 0 {
+			return nil, ExceptionNewf(TypeError, "descriptor '%s' of '%s' object needs an argument", m.Name, m.owner.Name)
+		}
+		if !args[0].Type().IsSubtype(m.owner) {
+			return nil, ExceptionNewf(TypeError, "descriptor '%s' requires a '%s' object but received a '%s'", m.Name, m.owner.Name, args[0].Type().Name)
+		}
+		self, args = args[0], args[1:]
+	}
 	if kwargs != nil {
 		return m.CallWithKeywords(self, args, kwargs)
 	}
